@@ -1,0 +1,558 @@
+//! Verification seams, compiled only with the `verif` cargo feature.
+//!
+//! Everything here is a pass-through until a simulator is installed with
+//! [`install`]: the lock/thread shims forward to the real primitives, the I/O
+//! tap answers `Proceed`, pause points and access taps do nothing and the
+//! knobs keep their production values.
+
+use std::sync::{
+    OnceLock,
+    atomic::{AtomicU64, AtomicUsize, Ordering},
+};
+
+#[derive(Debug, Clone, Copy, PartialEq, Eq, Hash, PartialOrd, Ord)]
+pub enum LockMode {
+    Read,
+    Write,
+    Mutex,
+}
+
+#[derive(Debug, Clone, Copy, PartialEq, Eq, Hash, PartialOrd, Ord)]
+pub enum FileKind {
+    Data,
+    Regions,
+}
+
+#[derive(Debug, Clone, Copy, PartialEq, Eq, Hash, PartialOrd, Ord)]
+pub enum IoKind {
+    /// Bytes stored through a shared mapping (`data` holds them).
+    Write,
+    /// `set_len(off)`.
+    SetLen,
+    /// `fdatasync` / `fsync` of the whole file.
+    Sync,
+    /// `fallocate(PUNCH_HOLE)` of `[off, off + len)`.
+    Punch,
+    /// (Re)creation of the shared mapping is about to happen (`len` = file length).
+    Map,
+    /// The shared mapping now lives at address `off` and is `len` bytes long.
+    Mapped,
+}
+
+#[derive(Debug, Clone, Copy)]
+pub struct IoEvent<'a> {
+    pub file: FileKind,
+    pub kind: IoKind,
+    pub off: u64,
+    pub len: u64,
+    pub data: &'a [u8],
+}
+
+#[derive(Debug, Clone, Copy, PartialEq, Eq)]
+pub enum IoVerdict {
+    Proceed,
+    /// Make the call fail with this errno instead of performing it.
+    Fail(i32),
+}
+
+#[derive(Debug, Clone, Copy, PartialEq, Eq, Hash)]
+pub enum AccessKind {
+    /// `addr` is a pointer into a shared mapping.
+    Mmap,
+    /// `addr` is an absolute offset in the data file (pread-style access).
+    FileRead,
+}
+
+/// The simulator side of every seam. All methods are called on the thread that
+/// reached the seam; an implementation decides per thread whether it controls it.
+pub trait Sim: Sync + 'static {
+    /// Called before the real lock is requested. Returns `true` if this thread
+    /// is under the simulator's control, in which case the call returns only
+    /// once the simulator's lock model has granted the lock.
+    fn lock_before(&self, id: u64, class: &'static str, mode: LockMode) -> bool;
+    /// Called after the real lock has been released.
+    fn lock_released(&self, id: u64, mode: LockMode);
+    /// Condvar wait: the mutex `mutex_id` is (really) unlocked while this runs.
+    /// Returns `Some(timed_out)` when controlled (having re-granted the mutex in
+    /// the model), `None` when the real condvar should be used instead.
+    fn cond_wait(&self, cv: u64, mutex_id: u64, timeout_ns: Option<u128>) -> Option<bool>;
+    fn cond_notify_all(&self, cv: u64);
+    /// Returns a token for the child if the spawning thread is controlled.
+    fn spawn_before(&self) -> Option<u64>;
+    fn child_start(&self, token: u64);
+    fn child_exit(&self, token: u64);
+    fn join_before(&self, token: u64);
+    fn pause(&self, name: &'static str);
+    fn io(&self, ev: &IoEvent<'_>) -> IoVerdict;
+    fn access(&self, kind: AccessKind, addr: usize, len: usize);
+}
+
+static SIM: OnceLock<&'static dyn Sim> = OnceLock::new();
+
+/// Installs the simulator for the rest of the process. First call wins.
+pub fn install(sim: &'static dyn Sim) -> bool {
+    SIM.set(sim).is_ok()
+}
+
+#[inline(always)]
+pub fn sim() -> Option<&'static dyn Sim> {
+    SIM.get().copied()
+}
+
+#[inline]
+pub fn pause(name: &'static str) {
+    if let Some(s) = sim() {
+        s.pause(name);
+    }
+}
+
+#[inline]
+pub fn access(kind: AccessKind, addr: usize, len: usize) {
+    if let Some(s) = sim() {
+        s.access(kind, addr, len);
+    }
+}
+
+#[inline]
+pub fn io(
+    file: FileKind,
+    kind: IoKind,
+    off: usize,
+    len: usize,
+    data: &[u8],
+) -> std::io::Result<()> {
+    if let Some(s) = sim() {
+        let ev = IoEvent {
+            file,
+            kind,
+            off: off as u64,
+            len: len as u64,
+            data,
+        };
+        if let IoVerdict::Fail(errno) = s.io(&ev) {
+            return Err(std::io::Error::from_raw_os_error(errno));
+        }
+    }
+    Ok(())
+}
+
+/// Infallible variant for operations that cannot report an error (mmap stores).
+#[inline]
+pub fn io_note(file: FileKind, kind: IoKind, off: usize, len: usize, data: &[u8]) {
+    let _ = io(file, kind, off, len, data);
+}
+
+// ---------------------------------------------------------------------------------------------
+// Knobs: run-time twins of tuning constants.
+
+pub const KNOB_MAX_CACHE_SIZE: usize = 0;
+pub const KNOB_MMAP_CROSSOVER_BYTES: usize = 1;
+
+const KNOB_DEFAULT: usize = 1024 * 1024 * 1024;
+
+pub static KNOBS: [AtomicUsize; 2] = [
+    AtomicUsize::new(KNOB_DEFAULT),
+    AtomicUsize::new(KNOB_DEFAULT),
+];
+
+pub fn set_knob(which: usize, value: usize) {
+    KNOBS[which].store(value, Ordering::SeqCst);
+}
+
+/// Stands in for a `usize` constant; every use reads the current knob value.
+#[derive(Debug, Clone, Copy)]
+pub struct Knob<const N: usize>;
+
+impl<const N: usize> Knob<N> {
+    #[inline]
+    pub fn get(self) -> usize {
+        KNOBS[N].load(Ordering::Relaxed)
+    }
+    #[inline]
+    pub fn div_ceil(self, rhs: usize) -> usize {
+        self.get().div_ceil(rhs)
+    }
+}
+
+impl<const N: usize> std::ops::Div<usize> for Knob<N> {
+    type Output = usize;
+    #[inline]
+    fn div(self, rhs: usize) -> usize {
+        self.get() / rhs
+    }
+}
+
+impl<const N: usize> PartialEq<Knob<N>> for usize {
+    #[inline]
+    fn eq(&self, other: &Knob<N>) -> bool {
+        *self == other.get()
+    }
+}
+
+impl<const N: usize> PartialOrd<Knob<N>> for usize {
+    #[inline]
+    fn partial_cmp(&self, other: &Knob<N>) -> Option<std::cmp::Ordering> {
+        self.partial_cmp(&other.get())
+    }
+}
+
+// ---------------------------------------------------------------------------------------------
+
+static NEXT_ID: AtomicU64 = AtomicU64::new(1);
+
+#[derive(Debug)]
+struct LazyId(AtomicU64);
+
+impl LazyId {
+    const fn new() -> Self {
+        Self(AtomicU64::new(0))
+    }
+    #[inline]
+    fn get(&self) -> u64 {
+        let v = self.0.load(Ordering::Relaxed);
+        if v != 0 {
+            return v;
+        }
+        let new = NEXT_ID.fetch_add(1, Ordering::Relaxed);
+        match self
+            .0
+            .compare_exchange(0, new, Ordering::Relaxed, Ordering::Relaxed)
+        {
+            Ok(_) => new,
+            Err(existing) => existing,
+        }
+    }
+}
+
+/// Same surface as the parts of `parking_lot` this workspace uses.
+pub mod sync {
+    use std::{
+        any::type_name,
+        fmt,
+        mem::ManuallyDrop,
+        ops::{Deref, DerefMut},
+        time::Duration,
+    };
+
+    use super::{LazyId, LockMode, sim};
+
+    pub struct RwLock<T> {
+        id: LazyId,
+        inner: parking_lot::RwLock<T>,
+    }
+
+    impl<T> RwLock<T> {
+        pub const fn new(value: T) -> Self {
+            Self {
+                id: LazyId::new(),
+                inner: parking_lot::RwLock::new(value),
+            }
+        }
+
+        pub fn into_inner(self) -> T {
+            self.inner.into_inner()
+        }
+
+        #[inline]
+        pub fn read(&self) -> RwLockReadGuard<'_, T> {
+            let controlled = match sim() {
+                Some(s) => s.lock_before(self.id.get(), type_name::<T>(), LockMode::Read),
+                None => false,
+            };
+            let g = if controlled {
+                self.inner
+                    .try_read_recursive()
+                    .expect("verif: lock model granted a read lock the real lock refused")
+            } else {
+                self.inner.read()
+            };
+            RwLockReadGuard {
+                g: ManuallyDrop::new(g),
+                lock: self,
+            }
+        }
+
+        #[inline]
+        pub fn write(&self) -> RwLockWriteGuard<'_, T> {
+            let controlled = match sim() {
+                Some(s) => s.lock_before(self.id.get(), type_name::<T>(), LockMode::Write),
+                None => false,
+            };
+            let g = if controlled {
+                self.inner
+                    .try_write()
+                    .expect("verif: lock model granted a write lock the real lock refused")
+            } else {
+                self.inner.write()
+            };
+            RwLockWriteGuard {
+                g: ManuallyDrop::new(g),
+                lock: self,
+            }
+        }
+    }
+
+    impl<T: fmt::Debug> fmt::Debug for RwLock<T> {
+        fn fmt(&self, f: &mut fmt::Formatter<'_>) -> fmt::Result {
+            self.inner.fmt(f)
+        }
+    }
+
+    impl<T: Default> Default for RwLock<T> {
+        fn default() -> Self {
+            Self::new(T::default())
+        }
+    }
+
+    pub struct RwLockReadGuard<'a, T> {
+        g: ManuallyDrop<parking_lot::RwLockReadGuard<'a, T>>,
+        lock: &'a RwLock<T>,
+    }
+
+    impl<T> Deref for RwLockReadGuard<'_, T> {
+        type Target = T;
+        #[inline(always)]
+        fn deref(&self) -> &T {
+            &self.g
+        }
+    }
+
+    impl<T> Drop for RwLockReadGuard<'_, T> {
+        #[inline]
+        fn drop(&mut self) {
+            unsafe { ManuallyDrop::drop(&mut self.g) };
+            if let Some(s) = sim() {
+                s.lock_released(self.lock.id.get(), LockMode::Read);
+            }
+        }
+    }
+
+    impl<T: fmt::Debug> fmt::Debug for RwLockReadGuard<'_, T> {
+        fn fmt(&self, f: &mut fmt::Formatter<'_>) -> fmt::Result {
+            (**self).fmt(f)
+        }
+    }
+
+    pub struct RwLockWriteGuard<'a, T> {
+        g: ManuallyDrop<parking_lot::RwLockWriteGuard<'a, T>>,
+        lock: &'a RwLock<T>,
+    }
+
+    impl<T> Deref for RwLockWriteGuard<'_, T> {
+        type Target = T;
+        #[inline(always)]
+        fn deref(&self) -> &T {
+            &self.g
+        }
+    }
+
+    impl<T> DerefMut for RwLockWriteGuard<'_, T> {
+        #[inline(always)]
+        fn deref_mut(&mut self) -> &mut T {
+            &mut self.g
+        }
+    }
+
+    impl<T> Drop for RwLockWriteGuard<'_, T> {
+        #[inline]
+        fn drop(&mut self) {
+            unsafe { ManuallyDrop::drop(&mut self.g) };
+            if let Some(s) = sim() {
+                s.lock_released(self.lock.id.get(), LockMode::Write);
+            }
+        }
+    }
+
+    impl<T: fmt::Debug> fmt::Debug for RwLockWriteGuard<'_, T> {
+        fn fmt(&self, f: &mut fmt::Formatter<'_>) -> fmt::Result {
+            (**self).fmt(f)
+        }
+    }
+
+    pub struct Mutex<T> {
+        id: LazyId,
+        inner: parking_lot::Mutex<T>,
+    }
+
+    impl<T> Mutex<T> {
+        pub const fn new(value: T) -> Self {
+            Self {
+                id: LazyId::new(),
+                inner: parking_lot::Mutex::new(value),
+            }
+        }
+
+        pub fn into_inner(self) -> T {
+            self.inner.into_inner()
+        }
+
+        #[inline]
+        pub fn lock(&self) -> MutexGuard<'_, T> {
+            let controlled = match sim() {
+                Some(s) => s.lock_before(self.id.get(), type_name::<T>(), LockMode::Mutex),
+                None => false,
+            };
+            let g = if controlled {
+                self.inner
+                    .try_lock()
+                    .expect("verif: lock model granted a mutex the real mutex refused")
+            } else {
+                self.inner.lock()
+            };
+            MutexGuard {
+                g: ManuallyDrop::new(g),
+                lock: self,
+            }
+        }
+    }
+
+    impl<T: fmt::Debug> fmt::Debug for Mutex<T> {
+        fn fmt(&self, f: &mut fmt::Formatter<'_>) -> fmt::Result {
+            self.inner.fmt(f)
+        }
+    }
+
+    impl<T: Default> Default for Mutex<T> {
+        fn default() -> Self {
+            Self::new(T::default())
+        }
+    }
+
+    pub struct MutexGuard<'a, T> {
+        g: ManuallyDrop<parking_lot::MutexGuard<'a, T>>,
+        lock: &'a Mutex<T>,
+    }
+
+    impl<T> Deref for MutexGuard<'_, T> {
+        type Target = T;
+        #[inline(always)]
+        fn deref(&self) -> &T {
+            &self.g
+        }
+    }
+
+    impl<T> DerefMut for MutexGuard<'_, T> {
+        #[inline(always)]
+        fn deref_mut(&mut self) -> &mut T {
+            &mut self.g
+        }
+    }
+
+    impl<T> Drop for MutexGuard<'_, T> {
+        #[inline]
+        fn drop(&mut self) {
+            unsafe { ManuallyDrop::drop(&mut self.g) };
+            if let Some(s) = sim() {
+                s.lock_released(self.lock.id.get(), LockMode::Mutex);
+            }
+        }
+    }
+
+    #[derive(Debug)]
+    pub struct WaitTimeoutResult(bool);
+
+    impl WaitTimeoutResult {
+        pub fn timed_out(&self) -> bool {
+            self.0
+        }
+    }
+
+    pub struct Condvar {
+        id: LazyId,
+        inner: parking_lot::Condvar,
+    }
+
+    impl Condvar {
+        pub const fn new() -> Self {
+            Self {
+                id: LazyId::new(),
+                inner: parking_lot::Condvar::new(),
+            }
+        }
+
+        pub fn wait_for<T>(
+            &self,
+            guard: &mut MutexGuard<'_, T>,
+            timeout: Duration,
+        ) -> WaitTimeoutResult {
+            if let Some(s) = sim() {
+                let cv = self.id.get();
+                let mutex_id = guard.lock.id.get();
+                let mut outcome = None;
+                parking_lot::MutexGuard::unlocked(&mut guard.g, || {
+                    outcome = s.cond_wait(cv, mutex_id, Some(timeout.as_nanos()));
+                });
+                if let Some(timed_out) = outcome {
+                    return WaitTimeoutResult(timed_out);
+                }
+            }
+            WaitTimeoutResult(self.inner.wait_for(&mut guard.g, timeout).timed_out())
+        }
+
+        pub fn notify_all(&self) -> usize {
+            if let Some(s) = sim() {
+                s.cond_notify_all(self.id.get());
+            }
+            self.inner.notify_all()
+        }
+    }
+
+    impl Default for Condvar {
+        fn default() -> Self {
+            Self::new()
+        }
+    }
+
+    impl fmt::Debug for Condvar {
+        fn fmt(&self, f: &mut fmt::Formatter<'_>) -> fmt::Result {
+            f.write_str("Condvar")
+        }
+    }
+}
+
+/// Same surface as the parts of `std::thread` this workspace uses.
+pub mod thread {
+    use super::sim;
+
+    pub struct JoinHandle<T> {
+        inner: std::thread::JoinHandle<T>,
+        token: Option<u64>,
+    }
+
+    impl<T> JoinHandle<T> {
+        pub fn join(self) -> std::thread::Result<T> {
+            if let (Some(s), Some(token)) = (sim(), self.token) {
+                s.join_before(token);
+            }
+            self.inner.join()
+        }
+    }
+
+    struct ExitGuard(u64);
+
+    impl Drop for ExitGuard {
+        fn drop(&mut self) {
+            if let Some(s) = sim() {
+                s.child_exit(self.0);
+            }
+        }
+    }
+
+    pub fn spawn<F, T>(f: F) -> JoinHandle<T>
+    where
+        F: FnOnce() -> T + Send + 'static,
+        T: Send + 'static,
+    {
+        let token = sim().and_then(|s| s.spawn_before());
+        let inner = std::thread::spawn(move || {
+            let _guard = token.map(|t| {
+                if let Some(s) = sim() {
+                    s.child_start(t);
+                }
+                ExitGuard(t)
+            });
+            f()
+        });
+        JoinHandle { inner, token }
+    }
+}
